@@ -134,7 +134,7 @@ func drain(it chunkenc.Iterator, out [][]int64, limit int) ([][]int64, error) {
 		t, v := it.At()
 		out = append(out, pair(t, v))
 		if len(out) > limit {
-			return out, fmt.Errorf("iterator yields more samples (%d) than all replicas hold", len(out))
+			return out, fmt.Errorf("iterator yields more samples (%d) than twice what all replicas hold", len(out))
 		}
 	}
 	return out, it.Err()
@@ -160,7 +160,7 @@ func observe(c vt.Case) (ev vt.Event) {
 		ev["err"] = err.Error()
 		return ev
 	}
-	next, err := drain(it, [][]int64{}, total)
+	next, err := drain(it, [][]int64{}, 2*total+8)
 	ev["next"] = next
 	if err != nil {
 		ev["err"] = err.Error()
@@ -177,7 +177,7 @@ func observe(c vt.Case) (ev vt.Event) {
 		if it.Seek(vt.Int64(x)) != chunkenc.ValNone {
 			t, v := it.At()
 			s = append(s, pair(t, v))
-			if s, err = drain(it, s, total); err != nil {
+			if s, err = drain(it, s, 2*total+8); err != nil {
 				ev["err"] = err.Error()
 			}
 		} else if err := it.Err(); err != nil {
